@@ -4,6 +4,7 @@ Import ListNotations.
 Require Uniform.
 Require Import DemFlat DemSample.
 Require Gen_DemSampler GenProofs_DemSampler.
+Require Pauli Sem Refine Run FrameRun FrameProg RevTrack RevProg DemBridge.
 
 (* a sampled shot (each fired error toggles each of its targets, separators ignored) has symptom x set exactly when x occurs
    an odd number of times among the targets of the errors that fired: XOR of the fired errors, duplicates cancel *)
@@ -38,3 +39,19 @@ Proof. vm_compute. repeat split. Qed.
 Theorem C16_resample_loop_is_the_model : GenProofs_DemSampler.demsampler_ok = true.
 Proof. exact GenProofs_DemSampler.resample_loop_is_the_model. Qed.
 Print Assumptions C16_resample_loop_is_the_model.
+
+(* Where the model's errors come from: for the detector error model read off a program by the reverse tracker (DemBridge.dem_of),
+   shot_of with `fired j = fault bit j differs from the reference` is, detector by detector, the circuit's detection event in
+   every run the semantics allows under those fault bits. *)
+Theorem C16_model_shots_are_circuit_shots :
+  forall (n : nat) (extr exta : nat -> bool) (prog : list FrameProg.pop) (ds : list (list bool)) (js : list nat)
+         (l la : list (Run.op * option bool)) (s s' : (Pauli.pauli -> Pauli.pauli) * (Pauli.pauli -> Pauli.pauli)) (Sg S' : Sem.state) (i : nat),
+  Forall (FrameProg.okp n) prog -> Run.good n (fst s) (snd s) -> Run.Inv n (fst s) Sg ->
+  FrameProg.realize extr [] prog l -> Run.sim_run n s l s' -> FrameProg.realize exta [] prog la -> Run.sem_run Sg la S' ->
+  NoDup js -> DemBridge.faults_in prog js -> i < List.length ds ->
+  RevProg.gauge_okp n prog (nth i ds []) ->
+  (forall g, Refine.wf n g -> Sg g -> Sem.acom g (fst (RevProg.bt n prog (nth i ds []))) = false) ->
+  xorb (RevTrack.par_rec la (nth i ds [])) (RevTrack.par_rec l (nth i ds [])) =
+  DemSample.shot_of (DemBridge.dem_of n extr exta prog ds js) (DemBridge.tgt i).
+Proof. exact DemBridge.circuit_shot_is_dem_shot. Qed.
+Print Assumptions C16_model_shots_are_circuit_shots.
